@@ -423,6 +423,18 @@ class Joiner:
                         if A.entails(ga, False) and B.entails(gb, False):
                             self._new_facts.append(Lin({p: 1}).sub(Lin({q: 1})).scale(sign).addc(c))
                             break
+                # conserved sums: a counter going up while a length goes down (`while let [x, rest @ ..] = rest`)
+                # keeps p + q equal to a term K over symbols both sides share
+                ka, kb = A.term(pa).add(A.term(qa)), B.term(pb).add(B.term(qb))
+                for K, Y, ky in ((ka, B, kb), (kb, A, ka)):
+                    if not K.t or any((t in phi_ids or t in stale or isinstance(t, tuple) or t not in A.iv or t not in B.iv or A.term(t) != Lin.var(t) or B.term(t) != Lin.var(t)) for t in K.t):
+                        continue
+                    d_ = ky.sub(K)
+                    if (not d_.t and d_.c == 0) or (Y.entails(d_, False) and Y.entails(d_.scale(-1), False)):
+                        e_ = Lin({p: 1}).add(Lin({q: 1})).sub(K)
+                        self._new_facts.append(e_)
+                        self._new_facts.append(e_.scale(-1))
+                        break
 
     @staticmethod
     def _mentions(name, v, stale):
